@@ -231,6 +231,21 @@ func c15Attrs(c *Case) {
 		default:
 			key++
 			kind := r.Intn(3)
+			if r.Intn(4) == 0 {
+				// something rolled back first - a transaction, or a statement refused for its key -: the
+				// time it ran at is not the time of what follows
+				if r.Bool() || key == 1 {
+					conn.Exec("begin")
+					conn.Exec(fmt.Sprintf("insert into %s values (%d, 'rolled', 'back')", t, 900000+i))
+					conn.Exec("rollback")
+					trace = append(trace, "begin; insert; rollback")
+				} else {
+					err := conn.Exec(fmt.Sprintf("insert into %s values (%d, 'refused', 'x')", t, key-1))
+					trace = append(trace, fmt.Sprintf("insert of the existing key %d -> %v", key-1, err))
+				}
+				c.Count("rollbacks_before_a_statement", 1)
+				time.Sleep(3 * time.Millisecond)
+			}
 			t0 := time.Now()
 			var q string
 			switch {
